@@ -40,6 +40,7 @@ impl Gate {
         g
     }
 
+    #[allow(dead_code)]
     pub fn is_open(&self) -> bool {
         self.st.lock().unwrap().open
     }
